@@ -202,13 +202,18 @@ Qed.
 Lemma wc_vals_same n c c' : wc_same c c' -> wc_vals n c' = wc_vals n c.
 Proof. intros S. unfold wc_vals. apply map_ext. intros i. rewrite (wc_same_get c c' S). reflexivity. Qed.
 
+(* the number of positions of a section, kept folded (a unary 4096 must never be unfolded by conversion) *)
+Definition nsec : nat := Z.to_nat sec_len.
+Lemma nsec_Z : Z.of_nat nsec = 4096. Proof. vm_compute. reflexivity. Qed.
+Global Opaque nsec.
+
 Lemma count_same is_air gs c c' : wc_inv false gs 4096 c -> wc_same c c' ->
-  count_non_air is_air c' = SOk (non_air is_air (wc_vals 4096 c)).
+  count_non_air is_air c' = SOk (non_air is_air (wc_vals nsec c)).
 Proof.
-  intros I S. unfold count_non_air. change (Z.to_nat sec_len) with 4096%nat.
-  rewrite wc_abs_vals.
-  - rewrite (wc_vals_same _ c c' S). reflexivity.
-  - intros i Hi. rewrite (wc_same_get c c' S). apply (wi_get _ _ _ _ I). lia.
+  intros I S. unfold count_non_air. change (Z.to_nat sec_len) with nsec.
+  rewrite (wc_abs_vals nsec c').
+  - rewrite (wc_vals_same nsec c c' S). reflexivity.
+  - intros i Hi. rewrite nsec_Z in Hi. rewrite (wc_same_get c c' S). apply (wi_get _ _ _ _ I). exact Hi.
 Qed.
 
 (* ---------- the registry round trip of a palette ---------- *)
@@ -275,9 +280,9 @@ Definition sec_same (s s' : sect wcont) : Prop :=
   (forall i, wc_get (s_states s') i = wc_get (s_states s) i) /\
   (forall i, wc_get (s_biomes s') i = wc_get (s_biomes s) i) /\
   s_sky s' = s_sky s /\ s_blk s' = s_blk s /\
-  s_count s' = non_air is_air (wc_vals 4096 (s_states s)).
+  s_count s' = non_air is_air (wc_vals nsec (s_states s)).
 
-Lemma non_air_small a : (length a <= 4096)%nat -> sx16 (u16 (non_air is_air a)) = non_air is_air a.
+Lemma non_air_small a : Z.of_nat (length a) <= 4096 -> sx16 (u16 (non_air is_air a)) = non_air is_air a.
 Proof.
   intros H. apply sx16_u16_small. rewrite non_air_cnt. pose proof (cnt_le is_air a). lia.
 Qed.
@@ -292,17 +297,17 @@ Proof.
   rewrite E1, E3. eexists. 
   destruct (with_data_states gs gb (s_states s) gs_range Is) as (st' & Ws & Ss).
   destruct (with_data_biomes gs gb (s_biomes s) gb_range Ib) as (bi' & Wb & Sb).
-  exists (mkSec (non_air is_air (wc_vals 4096 (s_states s))) st' bi' (s_sky s) (s_blk s)).
+  exists (mkSec (non_air is_air (wc_vals nsec (s_states s))) st' bi' (s_sky s) (s_blk s)).
   split; [reflexivity|]. split; [reflexivity|]. split.
   - unfold from_save_sec. cbn [ss_bpal ss_bdata ss_biopal ss_biodata ss_sky ss_blk].
     rewrite E2. change sec_len with 4096. rewrite Ws. rewrite (count_same is_air gs _ _ Is Ss).
     rewrite E4. change bio_len with 64. rewrite Wb.
-    rewrite non_air_small by (unfold wc_vals; rewrite map_length, seq_length; lia). reflexivity.
+    rewrite non_air_small by (unfold wc_vals; rewrite map_length, seq_length, nsec_Z; lia). reflexivity.
   - unfold sec_same. cbn [s_states s_biomes s_sky s_blk s_count].
     split; [apply wc_same_get; exact Ss|]. split; [apply wc_same_get; exact Sb|]. auto.
 Qed.
 
-Lemma y_back ypos j : -2^31 <= ypos < 2^31 -> -128 <= Z.of_nat j + ypos < 128 ->
+Lemma y_back ypos j : -128 <= ypos < 2^31 -> -128 <= Z.of_nat j + ypos < 128 ->
   sx32 (u32 (sx8 (u8 (Z.of_nat j + ypos)) - ypos)) = Z.of_nat j.
 Proof.
   intros Hy Hj. unfold sx8, u8. rewrite sx_wrapu by (try reflexivity; unfold in_sw; cbn; lia).
@@ -323,7 +328,7 @@ Proof.
     destruct (IH (S (length pre)) (pre ++ [Some s']) ltac:(rewrite app_length; cbn [length]; lia) Ht Hlo ltac:(lia))
       as (xs & ss' & T2 & F2 & Same2).
     exists (x :: xs), (s' :: ss'). cbn [to_save_secs]. rewrite T1, T2. split; [reflexivity|]. split; [|constructor; assumption].
-    cbn [from_save_secs]. rewrite Yx. rewrite (y_back ypos (length pre) Hy) by lia.
+    cbn [from_save_secs]. rewrite Yx. rewrite (y_back ypos (length pre)) by lia.
     replace ((Z.of_nat (length pre) <? 0) || (Z.of_nat (length pre + S (length t)) <=? Z.of_nat (length pre))) with false by lia.
     rewrite F1. rewrite Nat2Z.id. cbn [repeat]. unfold upd_at. rewrite upd_nth_mid.
     replace (length pre + S (length t))%nat with (S (length pre) + length t)%nat by lia.
@@ -334,6 +339,15 @@ Qed.
 End SaveRT.
 
 (* ---------- ChunkFromSave after ChunkToSave ---------- *)
+Lemma to_save_secs_length st_name bio_name ypos : forall ss i xs,
+  to_save_secs st_name bio_name ypos i ss = SOk xs -> length xs = length ss.
+Proof.
+  induction ss as [|s t IH]; intros i xs T; cbn [to_save_secs] in T.
+  - inversion T; reflexivity.
+  - destruct (to_save_sec st_name bio_name ypos i s); try discriminate.
+    destruct (to_save_secs st_name bio_name ypos (S i) t) eqn:E; try discriminate.
+    inversion T; subst. cbn [length]. f_equal. eapply IH. exact E.
+Qed.
 Definition six_keys : list (list N) := [kWSWG; kWS; kOFWG; kOF; kMB; kMBNL].
 
 Definition save_ok (st_name : Z -> option (list N * (N * list N))) (bio_name : Z -> option (list N))
@@ -366,12 +380,7 @@ Proof.
   destruct (secs_rt st_name st_id bio_name bio_id is_air gs gb Hst Hbio Hgs Hgb (sc_ypos dst) Hy
               (c_secs c) O [] eq_refl Hsecs Hlo ltac:(cbn [Nat.add]; lia)) as (xs & ss' & T & F & Same).
   cbn [Nat.add app] in F.
-  assert (Lx: length xs = length (c_secs c)).
-  { clear F. revert T. generalize O. revert xs. induction (c_secs c) as [|s t IH]; intros xs i T; cbn [to_save_secs] in T.
-    - inversion T; reflexivity.
-    - destruct (to_save_sec st_name bio_name (sc_ypos dst) i s); try discriminate.
-      destruct (to_save_secs st_name bio_name (sc_ypos dst) (S i) t) eqn:E; try discriminate.
-      inversion T; subst. cbn [length]. f_equal. eapply IH. exact E. }
+  pose proof (to_save_secs_length st_name bio_name (sc_ypos dst) (c_secs c) O xs T) as Lx.
   unfold to_save. rewrite T. eexists. exists ss'. split; [reflexivity|]. cbn [sc_hm sc_status sc_secs].
   repeat match goal with |- _ /\ _ => split end.
   - rewrite !lookup_set_other by reflexivity. apply lookup_set_same.
